@@ -27,6 +27,9 @@ func runC11(w *World, r *Report) {
 	// always tries the persisted update and the release, whatever the in-memory state says (C06-R6)
 	defer r.importRules(runC10, "C11-", map[string]bool{"C10-R10": true})
 	defer r.importRules(runC06, "C11-", map[string]bool{"C06-R6": true})
+	// "deletion removes the task record and all ITS checkpoints": the prefix the delete scans ends with '/', so that
+	// deleting task "a" does not take the checkpoints of task "ab" with it (C12-R1)
+	defer r.importRules(runC12, "C11-", map[string]bool{"C12-R1": true})
 	defer c11ReadersAfterState(w, r)
 	defer c13StopReleases(w, r, "C11-R11")
 	r.Rule("C11-R1", "no busy wait on a close-only channel", "in every blocking select inside a loop, a case that receives from a struct{} channel must leave the loop", 8)
